@@ -28,12 +28,13 @@ func init() {
 				"request-specific adjustment (AD bit, ECS echo) and after hop-by-hop data is removed, and re-applies those " +
 				"adjustments on the hit path.",
 			NotCovered: "the rounding amount of the served TTL, LRU eviction, that the cache library honours the expiry (trusted).",
-			Rules: map[string]string{"C04-R13": "setECS leaves exactly one subnet option, in requests and responses alike (table shared with C05-R4)", "C04-R12": "cache wrappers (agdcache, ecscache, dnsserver/cache) use every parameter: key, value and expiration reach the wrapped cache", "C04-R1": "served TTL aged on every path", "C04-R2": "cache key completeness", "C04-R3": "cacheability and store tables",
+			Rules: map[string]string{"C04-RC": "class rules (error chains, shadowed results, character classes, crossed arguments, pool constructors, array pools, loop completeness, loop-carried buffers, replacing setters, complete clones, Grow arithmetic, pooled-buffer escape, sorted searches, fresh decode targets, per-iteration objects, whole-message copies, codec guards) over the packages this property rests on", "C04-R13": "setECS leaves exactly one subnet option, in requests and responses alike (table shared with C05-R4)", "C04-R12": "cache wrappers (agdcache, ecscache, dnsserver/cache) use every parameter: key, value and expiration reach the wrapped cache", "C04-R1": "served TTL aged on every path", "C04-R2": "cache key completeness", "C04-R3": "cacheability and store tables",
 				"C04-R4": "lowest-TTL helper table", "C04-R5": "hit-path coverage and store ordering", "C04-R6": "cached items are private deep copies"},
 		}})
 }
 
 func runC04(c *an.Ctx) {
+	classSweep(c, "C04")
 	dnssvcWiring(c, "C04-R11", func(dst, src string) bool {
 		n := normName(dst) + " " + normName(src)
 		return strings.Contains(n, "count") || strings.Contains(n, "ttl")
